@@ -21,9 +21,15 @@ case "$cmd" in
 [net]
 offline = true
 [build]
+incremental = false
 rustflags = ["--cfg", "ckb_verif"]
 target-dir = "$dir/target"
 EOC
+    # seed the build cache with hard links (third-party crates are reused); the lock file must be private
+    if [ -d /verif/harness/target ] && [ ! -d "$dir/target" ]; then
+      cp -al /verif/harness/target "$dir/target"
+      rm -f "$dir/target/debug/.cargo-lock"; touch "$dir/target/debug/.cargo-lock"
+    fi
     cp /verif/known_findings.json "$dir/out/" 2>/dev/null || true
     echo "scratch ready: $dir (repo worktree: $dir/repo)"
     ;;
